@@ -1009,7 +1009,8 @@ pub fn match_expression(
                 crate::patterns::PatternMatchSemantics::OptionGuard,
             )?,
         };
-        let passed_guard = match &arm.guard {
+        // a guard may name the pattern's variables: it is only evaluated once the pattern has matched and bound them
+        let passed_guard = matched && match &arm.guard {
             Some(guard) => guard_expression_true(guard, &guard_env, p)?,
             None => true,
         };
@@ -1164,7 +1165,7 @@ fn match_validate_arm_kinds(
                 crate::patterns::PatternMatchSemantics::OptionGuard,
             )?,
         };
-        let passed_guard = match &arm.guard {
+        let passed_guard = applicable && match &arm.guard {
             Some(guard) => guard_expression_true(guard, &arm_env, p)?,
             None => true,
         };
